@@ -479,6 +479,31 @@ pub fn run(ctx: &Ctx) {
         v
     }, super::c19::check_key_doc_shape);
 
+    ctx.exhaustive("cbc_final_plaintext_byte_all_values", "CBC ciphertexts of 1, 2 and 5 blocks crafted with the reference so that the last decrypted byte takes every value 0..=255 (the padding byte the unpadding code branches on), and the byte before it 0 / the same value / random: never a panic", || {
+        let r = crate::refimpl::sm4::Sm4::new(&[9u8; 16]);
+        let mut v = Vec::new();
+        for blocks in [1usize, 2, 5] {
+            for val in 0..=255u8 {
+                for fill in 0..3u8 {
+                    let s = (blocks as u64) << 16 | (val as u64) << 8 | fill as u64;
+                    let mut iv = expand_bytes(s ^ 0xcbc0, 16);
+                    let mut ct = expand_bytes(s ^ 0xcbc1, 16 * blocks);
+                    let last: [u8; 16] = ct[16 * (blocks - 1)..].try_into().unwrap();
+                    let d = r.decrypt(&last);
+                    // plaintext byte = D[i] ^ previous ciphertext byte (or IV byte)
+                    let prev: &mut [u8] = if blocks == 1 { &mut iv[..] } else { &mut ct[16 * (blocks - 2)..16 * (blocks - 1)] };
+                    prev[15] = d[15] ^ val;
+                    prev[14] = d[14] ^ match fill { 0 => 0, 1 => val, _ => prev[14] ^ d[14] };
+                    let mut input = vec![0u8];
+                    input.extend_from_slice(&iv);
+                    input.extend_from_slice(&ct);
+                    v.push(Call { entry: "sm4.mode.decrypt(mode,iv,data)".to_string(), input: Hex(input) });
+                }
+            }
+        }
+        v
+    }, check_call);
+
     ctx.exhaustive("sm4_iv_carry_family", "SM4 modes with IVs ending in t = 0..=16 bytes 0xFF (last byte also 0xFE, 0xFD, 0xF0: the counter carries or wraps inside the message) x data of 0..=100 bytes, encrypt and decrypt", || {
         let mut v = Vec::new();
         for e in ["sm4.mode.encrypt(mode,iv,data)", "sm4.mode.decrypt(mode,iv,data)"] {
